@@ -120,3 +120,64 @@ pub fn drive_ans(w: u32, s: u32, precs: &[usize], seed: u64, n_events: usize, ou
     rep.checks += n_events as u64;
     rep
 }
+
+/// Range coder driver: messages of random length with adversarial models (symbols that straddle the word boundary are
+/// preferred, to provoke held-back words), inspections between symbols, sealing, decoding and seeking.
+pub fn drive_range(w: u32, s: u32, precs: &[usize], seed: u64, n_events: usize, out: &str) -> Report {
+    use crate::range::*;
+    let mut rep = Report::default();
+    let mut rng = Xoshiro256StarStar::seed_from_u64(seed ^ 0x5eed ^ ((w as u64) << 32) ^ ((s as u64) << 40));
+    let mut f = std::io::BufWriter::new(std::fs::File::create(format!("{}.exact.ndjson", out)).unwrap());
+    let tail3 = |v: &[u128]| vals(&v[v.len().saturating_sub(3)..]);
+    let encj = |e: &Box<dyn REncDyn>| { let r = e.raw(); json!({"lower": to_val(r.lower), "range": to_val(r.range), "sitN": r.sit_n, "sitW": to_val(r.sit_w), "bulk_len": r.bulk.len(), "bulk_tail": tail3(&r.bulk)}) };
+    let mut ev = 0usize;
+    while ev < n_events {
+        let mut enc = renc_new(w, s);
+        let mut o = encj(&enc); o["ev"] = json!("new"); writeln!(f, "{}", o).unwrap(); ev += 1;
+        let n = rng.gen_range(0..120usize);
+        let mut msg: Vec<(usize, Vec<u64>, usize)> = vec![];
+        let mut snaps = vec![enc.pos()];
+        for _ in 0..n {
+            let prec = precs[rng.gen_range(0..precs.len())];
+            // adversarial choice: try a few models/symbols and prefer one that leaves the encoder inverted
+            let mut best: Option<(Vec<u64>, usize)> = None;
+            for _ in 0..4 { let cdf = random_cdf(&mut rng, prec); let sym = rng.gen_range(0..cdf.len() - 1);
+                let mut t = enc.clone_box(); t.enc(prec, &cdf, sym).unwrap(); let inv = t.raw().sit_n > 0; if best.is_none() || inv { best = Some((cdf, sym)); if inv && rng.gen_bool(0.7) { break; } } }
+            let (cdf, sym) = best.unwrap();
+            enc.enc(prec, &cdf, sym).unwrap();
+            let mut o = encj(&enc); o["ev"] = json!("enc"); o["P"] = json!(prec); o["c"] = json!(cdf[sym]); o["p"] = json!(cdf[sym + 1] - cdf[sym]); writeln!(f, "{}", o).unwrap(); ev += 1;
+            let sn = enc.raw().sit_n; if sn > 0 { rep.class("inverted"); } if sn > 1 { rep.class("inverted_2plus"); }
+            msg.push((prec, cdf, sym)); snaps.push(enc.pos());
+            if rng.gen_range(0..10) == 0 {
+                let view = enc.get_compressed();
+                let mut o = encj(&enc); o["ev"] = json!("inspect"); o["num_words"] = json!(enc.num_words()); o["is_empty"] = json!(enc.is_empty()); o["pos"] = json!(enc.pos().0);
+                o["view_len"] = json!(view.len()); o["view_tail"] = tail3(&view); writeln!(f, "{}", o).unwrap(); ev += 1; rep.class("inspect");
+            }
+            if rng.gen_range(0..25) == 0 { let prec = precs[rng.gen_range(0..precs.len())]; let _ = enc.enc(prec, &[0, 0, 1u64 << prec], 0); let mut o = encj(&enc); o["ev"] = json!("enc_impossible"); writeln!(f, "{}", o).unwrap(); ev += 1; }
+        }
+        let words = enc.clone_box().into_compressed();
+        let mut dec = rdec_from_compressed(w, s, &words);
+        let dj = |d: &Box<dyn RDecDyn>| { let r = d.raw(); json!({"lower": to_val(r.lower), "range": to_val(r.range), "point": to_val(r.point), "pos": r.pos}) };
+        let mut o = dj(&dec); o["ev"] = json!("seal"); o["words_len"] = json!(words.len()); o["words_tail"] = tail3(&words); writeln!(f, "{}", o).unwrap(); ev += 1; rep.class("seal");
+        let mut at = 0usize;
+        let mut steps = 0;
+        while steps < 2 * n + 2 {
+            steps += 1;
+            if at < msg.len() && rng.gen_range(0..8) != 0 {
+                let (prec, cdf, sym) = &msg[at];
+                let r = dec.dec(*prec, cdf);
+                if r != Ok(*sym) { rep.mismatch(&json!({"k": "drive_range", "w": w, "s": s, "seed": seed}), format!("symbol {} of a {}-symbol message decoded as {:?}, expected {} (words {:?})", at, n, r, sym, words)); break; }
+                let mut o = dj(&dec); o["ev"] = json!("dec"); o["P"] = json!(prec); o["c"] = json!(cdf[*sym]); o["p"] = json!(cdf[sym + 1] - cdf[*sym]); o["maybe_exhausted"] = json!(dec.maybe_exhausted()); writeln!(f, "{}", o).unwrap(); ev += 1;
+                at += 1; rep.class("dec");
+            } else if !snaps.is_empty() {
+                let k = rng.gen_range(0..snaps.len()); let (pos, lo, ra) = snaps[k];
+                if dec.seek(pos, lo, ra).is_err() { rep.mismatch(&json!({"k": "drive_range", "w": w, "s": s, "seed": seed}), format!("seek to snapshot {} refused", k)); break; }
+                let mut o = dj(&dec); o["ev"] = json!("seek"); o["target"] = json!(pos); writeln!(f, "{}", o).unwrap(); ev += 1; at = k; rep.class("seek");
+            }
+            if at == msg.len() && rng.gen_bool(0.5) { break; }
+        }
+        rep.cases += 1;
+    }
+    rep.checks += ev as u64;
+    rep
+}
